@@ -64,6 +64,17 @@ class Prop(PropBase):
                     b = " ".join(map(str, g2 + tg.DEFAULT_ATTR))
                     cs.append(Case("T %d ; we %s ; we %s ; we %s" % (bits, a, b, a), sweep="charset-pairs-on-the-wire",
                                    cfgs=[cfgs[(c1 * 19 + c2) % len(cfgs)]]))
+        # ... with a BLANK (space, DEL) of the second set before its first ordinary glyph (a blank looks the same in every set)
+        for c1 in tg.CHARSETS:
+            for c2 in tg.CHARSETS:
+                for blank in (0x20, 0x7F):
+                    bits = 16 if (c1 + c2) % 2 else 0
+                    g1 = [c1] + (tg.utf8_bytes(0xE9) if c1 == 18 else [0x61, 0, 0])
+                    gb = [c2, blank, 0, 0]
+                    g2 = [c2] + (tg.utf8_bytes(0x20AC) if c2 == 18 else [0x62, 0, 0])
+                    els = [" ".join(map(str, g + tg.DEFAULT_ATTR)) for g in (g1, gb, g2)]
+                    cs.append(Case("T %d ; we %s ; we %s ; we %s" % (bits, els[0], els[1], els[2]), sweep="charset-pairs-with-a-blank-first",
+                                   cfgs=[cfgs[(c1 * 19 + c2) % len(cfgs)]], oracle=(blank == 0x20)))
         # ... with an erase between the two (an erase resets the rendition, never the designated set)
         for c1 in tg.CHARSETS:
             for c2 in tg.CHARSETS:
